@@ -431,27 +431,37 @@ class Check(PropertyCheck):
                   "until close / none, incl. HEAD, 1xx, 204, 304, CONNECT-2xx), ambiguous_rejected (its contrapositive for every "
                   "ambiguity class: CL+TE, differing or malformed CL, unknown / misplaced / repeated coding, non-chunked request "
                   "coding, TE on HTTP/1.0, TE on 1xx/204) and bad_field_name_rejected; the whitelist lemma parseTE_codings (what "
-                  "parse_transfer_encoding accepts is read by the reference reader as exactly the codings of the whitelist entry). "
+                  "parse_transfer_encoding accepts is read by the reference reader as exactly the codings of the whitelist entry); "
+                  "forward_request_roundtrip_nofold (for every request validate_headers accepts — from the wire or after addon edits — "
+                  "with whitespace-free request-line parts, fold-free values and a body consistent with the headers, the reference "
+                  "reader reads the bytes written by Http1Client.send back as exactly method, target, version, fields, body and leaves "
+                  "exactly what follows: Content-Length, no body, and the one-chunk + last-chunk re-framing incl. the inverse of %x) and "
+                  "forward_stream_roundtrip_nofold (pipelined messages by induction: same number, order, method, target, fields, body, "
+                  "nothing left over). "
                   "The real HttpLayer (regular/reverse/transparent, validate_inbound_headers on) is checked directly: bytes written "
                   "upstream/downstream are parsed by an independent Python RFC 9112 parser and compared with the flows recorded at the "
                   "hooks (count, order, method, target, fields, body; ambiguous messages not forwarded); the model is tied function by "
                   "function to the real code, and the Lean Ref to the Python reference parser.")
-    level_note = ("PARTIAL in Lean: forward_request_roundtrip / forward_stream_roundtrip / edit_stable are stated in full in "
-                  "Props/C01.lean (ForwardRequestRoundtrip, ForwardStreamRoundtrip) but NOT proved — only checked on concrete instances "
-                  "(by rfl) and, on the real code, by the reference-parser oracle over generated exchanges incl. addon edits; what is "
-                  "proved is the framing decision half of it (framing_agrees). Parameters/assumptions: url.parse_authority/url.parse "
+    level_note = ("PARTIAL in Lean: the request round trip is proved for field values without obs-fold (NoFold); with obs-fold the "
+                  "statement (fields read back as Ref.unfold of the recorded ones) is only checked on an instance by rfl and by the "
+                  "oracle; the response-side round trip (relayResponse vs Ref.parseResponse) is not proved — its framing decision is "
+                  "(framing_agrees), its bytes are covered by the reference-parser oracle on the real layer and the fwdresp/refresp "
+                  "ties. Parameters/assumptions: url.parse_authority/url.parse "
                   "(authOk; only simple host[:port] authorities are compared), h11 readers as transcribed, Python regex `$` semantics "
-                  "(trailing newline) modelled in parseCL/nameOk. Reference reader deliberately lenient where framing is not at stake: "
+                  "(trailing newline) modelled in parseCL/nameOk, connection_close's str.strip modelled on the ASCII range only. "
+                  "Reference reader deliberately lenient where framing is not at stake: "
                   "request-line tokens only need to be SP-delimited (a non-token method is not judged), NUL only rejected in field "
                   "values. Excluded: request lines announcing HTTP/2.0 or HTTP/3.0 on an HTTP/1 connection (h2->h1 conversion path, "
                   "C06), addon edits that break the message themselves (body on HEAD/1xx/204/304 response, edits after streaming started).")
     technique = "Lean 4 proof (induction over field lists / bytes) + translator table + function-level differential correspondence + independent reference-parser oracle on the real layer"
-    rule = ("x: grammar-directed exchanges (1-3 pipelined requests x scripted origin responses x addon edit script x mode; ~70% "
+    rule = ("every generator also draws non-ASCII look-alikes (Unicode decimal digits, Unicode whitespace, fullwidth / Kelvin letters, "
+            "latin-1 superscripts, lone high bytes) into Content-Length, Transfer-Encoding, status, version and chunk-size positions; "
+            "x: grammar-directed exchanges (1-3 pipelined requests x scripted origin responses x addon edit script x mode; ~70% "
             "valid, ~20% one-byte/line mutations, ~10% token soup), 30% with a random segmentation; fn: the request and response "
             "heads, TE/CL values, bodies of the same grammar fed to single functions (model tie) and to both reference parsers. "
             "distinct = distinct case; non-trivial = at least one flow / a non-empty input.")
-    budget = {"quick": 2500, "thorough": 150000}
-    time_budget = {"quick": 12, "thorough": 480}
+    budget = {"quick": 8000, "thorough": 150000}
+    time_budget = {"quick": 22, "thorough": 480}
     fingerprints = ["mitmproxy.net.http.http1.read:_read_headers", "mitmproxy.net.http.http1.read:_read_request_line",
                     "mitmproxy.net.http.http1.read:_read_response_line", "mitmproxy.net.http.http1.read:expected_http_body_size",
                     "mitmproxy.net.http.http1.read:connection_close", "mitmproxy.net.http.http1.read:raise_if_http_version_unknown",
